@@ -54,8 +54,9 @@ PNext == \/ /\ Len(hist) < MaxLen
 \* number of reads in a program that return blob b1 (the blob that carries the size class): by replay
 \* the branches of the model that a program exercises: <<call, mode, branch...>> per call
 FeatOf(s, o) ==
-  CASE o.op = "get" -> <<"get", o.mode>> \o GetL(IF o.mode = "auto" THEN [s EXCEPT !.tx = "ro"] ELSE s, 1,
-                                               IF o.mode = "auto" THEN "tx" ELSE o.mode, o.id).via
+  CASE o.op = "get" -> LET r == GetL(IF o.mode = "auto" THEN [s EXCEPT !.tx = "ro"] ELSE s, 1,
+                                      IF o.mode = "auto" THEN "tx" ELSE o.mode, o.id) IN
+                       <<"get", o.mode>> \o r.via \o <<r.v>>          \* ... and which blob the branch delivers
     [] o.op = "drain" -> <<"drain", IF s.ob = <<>> THEN "nothing" ELSE "entries">>
     [] o.op \in {"commit", "rollback"} -> <<o.op, IF s.istaged = <<>> THEN "nowrites" ELSE "writes">>
     [] o.op \in {"put", "del"} -> <<o.op, o.mode, IF s.ideal[o.id] = None THEN "absent" ELSE "present">>
